@@ -371,6 +371,12 @@ func dependsOn(v ssa.Value, srcs []ssa.Value, depth int) bool {
 				return true
 			}
 		}
+		// slices.ContainsFunc and friends: the result depends on what the function argument returns
+		for _, r := range hofClosureResults(x) {
+			if dependsOn(r, srcs, depth-1) {
+				return true
+			}
+		}
 	case *ssa.Extract:
 		return dependsOn(x.Tuple, srcs, depth-1)
 	case *ssa.ChangeType:
